@@ -194,6 +194,9 @@ def _fn_names(fn):
     return out
 
 
+_desugar_counter = [0]
+
+
 def _desugar_comprehensions(fn):
     """`x = [elt for t in it if c]` -> `x = []` / `for t in it: if c: x.append(elt)` (also set comprehensions, and a generator
     expression bound to a name that is used once as the iterable of such a comprehension or of a for loop). Only when the
@@ -261,9 +264,26 @@ def _desugar_comprehensions(fn):
                     for n in ast.walk(fn):
                         if isinstance(n, ast.Name) and n.id in tnames and id(n) not in inside:
                             outside += 1
-                    if outside or x in tnames:
+                    if x in tnames:
                         i += 1
                         continue
+                    if outside:
+                        # the comprehension's own variables are private to it: rename the ones that also exist outside
+                        clash = {n.id for n in ast.walk(fn) if isinstance(n, ast.Name) and n.id in tnames and id(n) not in inside}
+                        _desugar_counter[0] += 1
+
+                        class _R(ast.NodeTransformer):
+                            def visit_Name(self, node):
+                                if node.id in clash:
+                                    return ast.copy_location(ast.Name(id=f"{node.id}__c{_desugar_counter[0]}", ctx=node.ctx), node)
+                                return node
+                        it0 = g.iter if inner is None else inner.generators[0].iter
+                        keep_iter = copy.deepcopy(it0)    # the outermost iterable is evaluated in the enclosing scope: not renamed
+                        _R().visit(comp)
+                        if inner is None:
+                            g.iter = keep_iter
+                        else:
+                            inner.generators[0].iter = keep_iter
                     if isinstance(comp, ast.DictComp):
                         init = ast.Dict(keys=[], values=[])
                         add = ast.Assign(targets=[ast.Subscript(value=ast.Name(id=x, ctx=ast.Load()), slice=comp.key, ctx=ast.Store())], value=comp.value, lineno=s.lineno)
@@ -304,9 +324,263 @@ def _desugar_comprehensions(fn):
     return changed
 
 
+# ---------------------------------------------------------------- less common constructs -> the plain forms the rules read
+def _blocks(node):
+    for fld in ("body", "orelse", "finalbody"):
+        b = getattr(node, fld, None)
+        if isinstance(b, list) and b and isinstance(b[0], ast.stmt):
+            yield b
+    if isinstance(node, ast.Try):
+        for h in node.handlers:
+            yield h.body
+    if hasattr(ast, "Match") and isinstance(node, ast.Match):
+        for c in node.cases:
+            yield c.body
+
+
+def _pattern_test(pat, subj):
+    """test expression equivalent to `pat` matching `subj` for literal / value / or / class-without-arguments / wildcard patterns; None otherwise"""
+    if isinstance(pat, ast.MatchValue):
+        return ast.Compare(left=copy.deepcopy(subj), ops=[ast.Eq()], comparators=[pat.value])
+    if isinstance(pat, ast.MatchSingleton):
+        return ast.Compare(left=copy.deepcopy(subj), ops=[ast.Is()], comparators=[ast.Constant(pat.value)])
+    if isinstance(pat, ast.MatchOr):
+        if all(isinstance(x, ast.MatchValue) and isinstance(x.value, ast.Constant) for x in pat.patterns):
+            return ast.Compare(left=copy.deepcopy(subj), ops=[ast.In()], comparators=[ast.Tuple(elts=[x.value for x in pat.patterns], ctx=ast.Load())])
+        parts = [_pattern_test(x, subj) for x in pat.patterns]
+        return None if any(x is None for x in parts) else ast.BoolOp(op=ast.Or(), values=parts)
+    if isinstance(pat, ast.MatchClass) and not pat.patterns and not pat.kwd_patterns:
+        return ast.Call(func=ast.Name(id="isinstance", ctx=ast.Load()), args=[copy.deepcopy(subj), pat.cls], keywords=[])
+    if isinstance(pat, ast.MatchAs) and pat.pattern is None and pat.name is None:
+        return True
+    return None
+
+
+def _desugar_match(fn):
+    """`match <name or attribute>:` with literal / value / or / `cls()` / `_` cases -> if/elif/else"""
+    if not hasattr(ast, "Match"):
+        return 0
+    changed = 0
+    for owner in list(ast.walk(fn)):
+        for blk in _blocks(owner):
+            for i, s in enumerate(blk):
+                if not isinstance(s, ast.Match) or not _pure_ref(s.subject) or isinstance(s.subject, ast.Constant):
+                    continue
+                tests = []
+                for c in s.cases:
+                    t = _pattern_test(c.pattern, s.subject)
+                    if t is None:
+                        tests = None
+                        break
+                    if c.guard is not None:
+                        t = c.guard if t is True else ast.BoolOp(op=ast.And(), values=[t, c.guard])
+                    tests.append(t)
+                if not tests or any(t is True for t in tests[:-1]):
+                    continue
+                node = None
+                for c, t in reversed(list(zip(s.cases, tests))):
+                    if t is True:
+                        node = list(c.body)
+                    else:
+                        node = [ast.copy_location(ast.If(test=t, body=list(c.body), orelse=node or []), s)]
+                blk[i:i + 1] = node
+                changed += 1
+                break
+    return changed
+
+
+def _unconditional_walrus(e):
+    """NamedExpr nodes of e that are evaluated whenever e is (not under a short-circuit right operand, a conditional expression branch, a lambda or a
+    comprehension), in evaluation order (inner first)"""
+    out = []
+
+    def rec(n):
+        if isinstance(n, (ast.Lambda, ast.ListComp, ast.SetComp, ast.DictComp, ast.GeneratorExp)):
+            return
+        if isinstance(n, ast.BoolOp):
+            rec(n.values[0])
+            return
+        if isinstance(n, ast.IfExp):
+            rec(n.test)
+            return
+        for ch in ast.iter_child_nodes(n):
+            rec(ch)
+        if isinstance(n, ast.NamedExpr) and isinstance(n.target, ast.Name):
+            out.append(n)
+    rec(e)
+    return out
+
+
+class _DropWalrus(ast.NodeTransformer):
+    def __init__(self, nodes):
+        self.ids = {id(n) for n in nodes}
+
+    def visit_NamedExpr(self, node):
+        self.generic_visit(node)
+        if id(node) in self.ids:
+            return ast.copy_location(ast.Name(id=node.target.id, ctx=ast.Load()), node)
+        return node
+
+
+def _desugar_walrus(fn):
+    """`if (x := e): ...` -> `x = e` / `if x: ...`; `while (x := e): B` -> `while True: x = e; if not x: break; B`; same for the value of an
+    expression statement, assignment or return"""
+    changed = 0
+    for _ in range(8):
+        done = False
+        for owner in list(ast.walk(fn)):
+            if isinstance(owner, FuncT) and owner is not fn:
+                continue
+            for blk in _blocks(owner):
+                for i, s in enumerate(blk):
+                    host = None
+                    if isinstance(s, ast.If):
+                        host = "test"
+                    elif isinstance(s, ast.While) and not s.orelse:
+                        host = "while"
+                    elif isinstance(s, (ast.Expr, ast.Assign, ast.Return, ast.AugAssign)) and getattr(s, "value", None) is not None:
+                        host = "value"
+                    if host is None:
+                        continue
+                    expr = s.test if host in ("test", "while") else s.value
+                    ws = _unconditional_walrus(expr)
+                    if not ws:
+                        continue
+                    assigns = [ast.copy_location(ast.Assign(targets=[ast.Name(id=w.target.id, ctx=ast.Store())], value=_DropWalrus(ws).visit(copy.deepcopy(w.value)) if False else w.value, lineno=s.lineno), s)
+                               for w in ws]
+                    # inner walruses inside an outer walrus value are replaced by their names there too
+                    for a in assigns:
+                        a.value = _DropWalrus([w for w in ws if w.value is not a.value]).visit(a.value)
+                    new_expr = _DropWalrus(ws).visit(expr)
+                    if host == "test":
+                        s.test = new_expr
+                        blk[i:i + 1] = assigns + [s]
+                    elif host == "value":
+                        s.value = new_expr
+                        blk[i:i + 1] = assigns + [s]
+                    else:
+                        brk = ast.copy_location(ast.If(test=ast.UnaryOp(op=ast.Not(), operand=new_expr), body=[ast.copy_location(ast.Break(), s)], orelse=[]), s)
+                        s.test = ast.copy_location(ast.Constant(True), s)
+                        s.body = assigns + [brk] + s.body
+                    changed += 1
+                    done = True
+                    break
+                if done:
+                    break
+            if done:
+                break
+        if not done:
+            break
+    return changed
+
+
+def _desugar_exit_stack(fn):
+    """`[async] with [contextlib.][Async]ExitStack() as st:` whose body starts with `x = [await] st.enter_[async_]context(E)` / `st.callback(f, *a)` lines
+    -> nested with-blocks / try-finally in the same order (only when `st` is used for nothing else)"""
+    changed = 0
+    for owner in list(ast.walk(fn)):
+        for blk in _blocks(owner):
+            for i, s in enumerate(blk):
+                if not isinstance(s, (ast.With, ast.AsyncWith)) or len(s.items) != 1:
+                    continue
+                it = s.items[0]
+                c = it.context_expr
+                if not (isinstance(c, ast.Call) and not c.args and not c.keywords and isinstance(it.optional_vars, ast.Name)
+                        and (c.func.attr if isinstance(c.func, ast.Attribute) else getattr(c.func, "id", "")) in ("ExitStack", "AsyncExitStack")):
+                    continue
+                st = it.optional_vars.id
+                lead = []
+                k = 0
+                for stmt in s.body:
+                    val, tgt = None, None
+                    if isinstance(stmt, ast.Assign) and len(stmt.targets) == 1:
+                        val, tgt = stmt.value, stmt.targets[0]
+                    elif isinstance(stmt, ast.Expr):
+                        val = stmt.value
+                    call = val.value if isinstance(val, ast.Await) else val
+                    if isinstance(call, ast.Call) and isinstance(call.func, ast.Attribute) and isinstance(call.func.value, ast.Name) and call.func.value.id == st \
+                            and call.func.attr in ("enter_context", "enter_async_context", "callback", "push_async_callback") and call.args and not call.keywords:
+                        lead.append((call.func.attr, call.args, tgt, stmt))
+                        k += 1
+                    else:
+                        break
+                rest = s.body[k:]
+                if not lead or any(isinstance(n, ast.Name) and n.id == st for r in rest for n in ast.walk(r)):
+                    continue
+                inner = rest or [ast.copy_location(ast.Pass(), s)]
+                for kind, args, tgt, stmt in reversed(lead):
+                    if kind in ("enter_context", "enter_async_context"):
+                        w = (ast.AsyncWith if kind == "enter_async_context" else ast.With)(items=[ast.withitem(context_expr=args[0], optional_vars=tgt)], body=inner)
+                        if tgt is not None:
+                            for t_ in ast.walk(tgt):
+                                if isinstance(t_, (ast.Name, ast.Tuple)):
+                                    t_.ctx = ast.Store()
+                        inner = [ast.copy_location(w, stmt)]
+                    else:
+                        fin = ast.Expr(value=ast.Call(func=args[0], args=list(args[1:]), keywords=[]))
+                        if kind == "push_async_callback":
+                            fin = ast.Expr(value=ast.Await(value=fin.value))
+                        inner = [ast.copy_location(ast.Try(body=inner, handlers=[], orelse=[], finalbody=[ast.copy_location(fin, stmt)]), stmt)]
+                blk[i:i + 1] = inner
+                changed += 1
+                break
+    return changed
+
+
+def _split_tuple_assign(fn):
+    """`a, b = x, y` -> `a = x` / `b = y` when no value reads a target"""
+    changed = 0
+    for owner in list(ast.walk(fn)):
+        for blk in _blocks(owner):
+            i = 0
+            while i < len(blk):
+                s = blk[i]
+                if isinstance(s, ast.Assign) and len(s.targets) == 1 and isinstance(s.targets[0], ast.Tuple) and isinstance(s.value, ast.Tuple) \
+                        and len(s.targets[0].elts) == len(s.value.elts) and len(s.value.elts) >= 2 and all(isinstance(t, ast.Name) for t in s.targets[0].elts) \
+                        and not any(isinstance(v, ast.Starred) for v in s.value.elts):
+                    tn = {t.id for t in s.targets[0].elts}
+                    if not (tn & {n.id for v in s.value.elts for n in ast.walk(v) if isinstance(n, ast.Name)}) \
+                            and not any(isinstance(n, (ast.Await, ast.Call, ast.NamedExpr)) for v in s.value.elts[:-1] for n in ast.walk(v)) or \
+                            (not (tn & {n.id for v in s.value.elts for n in ast.walk(v) if isinstance(n, ast.Name)})):
+                        new = [ast.copy_location(ast.Assign(targets=[t], value=v, lineno=s.lineno), s) for t, v in zip(s.targets[0].elts, s.value.elts)]
+                        blk[i:i + 1] = new
+                        changed += 1
+                        i += len(new)
+                        continue
+                i += 1
+    return changed
+
+
+class _MapMethodcaller(ast.NodeTransformer):
+    """map(operator.methodcaller("m", *a), it) -> (x.m(*a) for x in it)"""
+
+    def visit_Call(self, node):
+        self.generic_visit(node)
+        if isinstance(node.func, ast.Name) and node.func.id == "map" and len(node.args) == 2 and not node.keywords:
+            f = node.args[0]
+            if isinstance(f, ast.Call) and (f.func.attr if isinstance(f.func, ast.Attribute) else getattr(f.func, "id", "")) == "methodcaller" \
+                    and f.args and isinstance(f.args[0], ast.Constant) and isinstance(f.args[0].value, str) and not f.keywords:
+                var = ast.Name(id="item__mc", ctx=ast.Load())
+                elt = ast.Call(func=ast.Attribute(value=var, attr=f.args[0].value, ctx=ast.Load()), args=list(f.args[1:]), keywords=[])
+                gen = ast.GeneratorExp(elt=elt, generators=[ast.comprehension(target=ast.Name(id="item__mc", ctx=ast.Store()), iter=node.args[1], ifs=[], is_async=0)])
+                return ast.copy_location(gen, node)
+        return node
+
+
 def normalise(tree):
     """in-place; returns the number of substituted uses"""
     _AnnToAssign().visit(tree)
+    _MapMethodcaller().visit(tree)
+    for fn in [n for n in ast.walk(tree) if isinstance(n, FuncT)]:
+        for _ in range(4):
+            if not _desugar_match(fn):
+                break
+        _desugar_walrus(fn)
+        for _ in range(4):
+            if not _desugar_exit_stack(fn):
+                break
+        _split_tuple_assign(fn)
+    ast.fix_missing_locations(tree)
     for fn in [n for n in ast.walk(tree) if isinstance(n, FuncT)]:
         _desugar_comprehensions(fn)
     total = 0
